@@ -536,3 +536,155 @@ Fixpoint arun (a : agg) (evs : list aevent) : agg * list out :=
       let (a2, o2) := arun a1 r in
       (a2, o1 ++ o2)
   end.
+
+(* ------------------------------------------------------------------ encrypted notifications inside the scanner callback
+   BlePairing._async_notification, called by _device_detected for manufacturer data of type 0x11.
+   Decryption is abstract: [opens] lists, for THIS payload and advertising identifier, the state numbers at
+   which BroadcastDecryptionKey.decrypt returns a plaintext (authenticity/freshness are C18's subject);
+   nothing is assumed about it.  [guard] = fixes/C19-encrypted-notification-never-raises.patch applied. *)
+Inductive vfmt := FBool | FU8 | FU16 | FU32 | FU64 | FInt | FFloat | FString | FOther.
+
+(* struct.unpack_from(fmt, value): struct.error unless the buffer has that many bytes *)
+Definition need (f : vfmt) : nat :=
+  match f with
+  | FBool | FU8 => 1 | FU16 => 2 | FU32 | FInt | FFloat => 4 | FU64 => 8 | FString | FOther => 0
+  end%nat.
+
+(* bytes.decode("utf-8"): the strict decoder (RFC 3629 table 3-7) *)
+Definition cont (b : N) : bool := (128 <=? b) && (b <=? 191).
+Definition between (lo hi b : N) : bool := (lo <=? b) && (b <=? hi).
+Fixpoint utf8_go (fuel : nat) (l : bytes) : bool :=
+  match fuel with
+  | O => nil_b l
+  | S f =>
+      match l with
+      | [] => true
+      | b :: r =>
+          if b <? 128 then utf8_go f r
+          else if between 194 223 b then
+            match r with c1 :: r1 => cont c1 && utf8_go f r1 | _ => false end
+          else if between 224 239 b then
+            match r with
+            | c1 :: c2 :: r2 =>
+                (if b =? 224 then between 160 191 c1 else if b =? 237 then between 128 159 c1 else cont c1)
+                && cont c2 && utf8_go f r2
+            | _ => false
+            end
+          else if between 240 244 b then
+            match r with
+            | c1 :: c2 :: c3 :: r3 =>
+                (if b =? 240 then between 144 191 c1 else if b =? 244 then between 128 143 c1 else cont c1)
+                && cont c2 && cont c3 && utf8_go f r3
+            | _ => false
+            end
+          else false
+      end
+  end.
+Definition utf8_ok (l : bytes) : bool := utf8_go (length l) l.
+
+(* values.from_bytes(char, value) as far as raising is concerned *)
+Definition from_bytes_chk (f : vfmt) (v : bytes) : res perr unit :=
+  match f with
+  | FString => if utf8_ok v then Ok tt else Crash
+  | FOther => Ok tt
+  | _ => if (need f <=? length v)%nat then Ok tt else Crash
+  end.
+
+Record npair := {
+  np_key : bool;                          (* a broadcast key is known *)
+  np_sn : option N;                       (* description.state_num; None = no description yet *)
+  np_db : option (list (N * vfmt))        (* characteristics of accessory aid 1; None = no such accessory *)
+}.
+
+Inductive nres :=
+| NNoKey          (* no broadcast key: processed as disconnected event *)
+| NNoDescription  (* "before advertisement": logged, dropped *)
+| NUndecryptable  (* no candidate state number opens it: processed as disconnected event *)
+| NStale          (* opens at the current state number: ignored *)
+| NMismatch       (* inner state number differs: ignored *)
+| NDelivered (iid : N)     (* listeners called *)
+| NPoll (iid : N)          (* authentic, characteristic unknown: state number advanced, poll instead (repaired code) *)
+| NDropped (iid : N)       (* authentic, value undecodable: state number advanced, dropped (repaired code) *)
+| NRaisedOut.              (* an exception leaves _async_notification *)
+
+Fixpoint nlookup {A} (k : N) (l : list (N * A)) : option A :=
+  match l with [] => None | (k', v) :: r => if k' =? k then Some v else nlookup k r end.
+
+(* candidate state numbers, in the order the code tries them *)
+Definition cands (start : N) : list N :=
+  (start + 1) :: start :: map (fun i => start + 2 + N.of_nat i) (seq 0 98).
+
+Fixpoint first_open (cs : list N) (opens : list (N * bytes)) : option (N * bytes) :=
+  match cs with
+  | [] => None
+  | c :: r => match nlookup c opens with Some pt => Some (c, pt) | None => first_open r opens end
+  end.
+
+Definition set_sn (p : npair) (n : N) : npair := {| np_key := np_key p; np_sn := Some n; np_db := np_db p |}.
+
+Definition notif_handle (guard : bool) (p : npair) (opens : list (N * bytes)) : npair * nres :=
+  if negb (np_key p) then (p, NNoKey) else
+  match np_sn p with
+  | None => (p, NNoDescription)
+  | Some start =>
+      match first_open (cands start) opens with
+      | None => (p, NUndecryptable)
+      | Some (c, pt) =>
+          if c =? start then (p, NStale) else
+          let gsn := le_dec (slice pt 0 2) in
+          if negb (gsn =? c) then (p, NMismatch) else
+          let iid := le_dec (slice pt 2 4) in
+          let value := slice pt 4 12 in
+          let p' := set_sn p gsn in
+          match np_db p with
+          | None => (p', if guard then NPoll iid else NRaisedOut)              (* accessories.aid(1): KeyError *)
+          | Some db =>
+              match nlookup iid db with
+              | None => (p', if guard then NPoll iid else NRaisedOut)          (* from_bytes(None, ..): AttributeError *)
+              | Some f =>
+                  match from_bytes_chk f value with
+                  | Ok _ => (p', NDelivered iid)
+                  | _ => (p', if guard then NDropped iid else NRaisedOut)      (* struct.error / UnicodeDecodeError *)
+                  end
+              end
+          end
+      end
+  end.
+
+(* the complete scanner callback: [ble_callback] plus the pairing side of the type-0x11 branch and the
+   description update a type-0x06 advertisement makes on a loaded pairing *)
+Definition nupdate (k : id) (p : npair) (l : list (id * npair)) : list (id * npair) :=
+  map (fun kv => if beq (fst kv) k then (k, p) else kv) l.
+
+Definition ble_callback_full (c : cfg) (guard : bool) (s : st) (nps : list (id * npair))
+           (opens : list (N * bytes)) (md : option bytes) : st * list (id * npair) * list out * option nres :=
+  match md with
+  | Some (17 :: _) =>
+      match notif_parse md with
+      | Ok n =>
+          match alookup (hn_id n) nps with
+          | None => (s, nps, [], None)
+          | Some p =>
+              let (p', r) := notif_handle guard p opens in
+              (s, nupdate (hn_id n) p' nps, match r with NRaisedOut => [Raised] | _ => [] end, Some r)
+          end
+      | Err _ => (s, nps, [], None)
+      | _ => (s, nps, [Raised], None)
+      end
+  | _ =>
+      let (s', o) := ble_callback c s md in
+      let nps' :=
+        match md, o with
+        | Some (6 :: _), [Raised] => nps
+        | Some (6 :: _), _ =>
+            match adv_parse md with
+            | Ok a => match alookup (ha_id a) nps with
+                      | Some p => nupdate (ha_id a) (set_sn p (ha_sn a)) nps
+                      | None => nps
+                      end
+            | _ => nps
+            end
+        | _, _ => nps
+        end in
+      (s', nps', o, None)
+  end.
